@@ -19,7 +19,8 @@ def run_case(case, taps='all'):
         return M.run_multi(m['pipes'], m['schedule'], taps=taps)[m['index']]
     if mode == 'mux':
         return M.run_mux(case['pipe'], case['src'], timescale=case.get('timescale'), taps=taps,
-                         dl_late=case.get('dl_late', False), share_ops=case.get('share_ops', False))
+                         dl_late=case.get('dl_late', False), share_ops=case.get('share_ops', False),
+                         warmup=case.get('warmup'))
     if mode == 'src':
         return M.run_src(case['pipe'], case['src'], complete=case.get('complete', True),
                          timescale=case.get('timescale'), taps=taps, root=case.get('root', 'store'),
@@ -144,7 +145,7 @@ def judge(V, cases, relevant, stats, family='', keep_traces=None, isolation=None
                          'mode': tr['mode'], 'src': tr['src'],
                          'timescale': cases[i].get('timescale'), 'multi': cases[i].get('multi'),
                          'root': cases[i].get('root', 'store'), 'dl_late': cases[i].get('dl_late', False),
-                         'share_ops': cases[i].get('share_ops', False),
+                         'share_ops': cases[i].get('share_ops', False), 'warmup': cases[i].get('warmup'),
                          'clauses': ['%s:%s' % pn for pn in names]},
                         '+'.join(sorted({n for _, n in mine})),
                         detail='first rejected at source step %s' % step)
@@ -167,7 +168,7 @@ def judge(V, cases, relevant, stats, family='', keep_traces=None, isolation=None
                          'pipe': json.dumps(tr['pipe'], sort_keys=True), 'mode': tr['mode'],
                          'src': tr['src'], 'timescale': c.get('timescale'), 'untapped': True,
                          'multi': c.get('multi'), 'root': c.get('root', 'store'), 'dl_late': c.get('dl_late', False),
-                         'share_ops': c.get('share_ops', False),
+                         'share_ops': c.get('share_ops', False), 'warmup': c.get('warmup'),
                          'clauses': ['untapped-differs']}, 'untapped-differs',
                         detail='without inner taps: end=%s out=%s' % (u['end'], json.dumps(ends(u)[0])[:300]))
             stats['untapped_differs'] = stats.get('untapped_differs', 0) + 1
@@ -186,6 +187,8 @@ def replay(prop, path, relevant):
     case['root'] = w.get('root', 'store')
     case['dl_late'] = w.get('dl_late', False)
     case['share_ops'] = w.get('share_ops', False)
+    if w.get('warmup'):
+        case['warmup'] = w['warmup']
     tr = run_case(case)
     if w.get('untapped'):
         u = run_case(case, taps='ends')
